@@ -191,7 +191,10 @@ func init() {
 
 	// C12: concurrent writers; the peer's raw byte log must be handshake + whole frames, per-writer order preserved, each accepted write once
 	outScenario := func(name string, quick bool, writers, per int, sizes []int, wq int, gz int, stall bool) {
-		props := []string{"C12", "C17"}
+		props := []string{"C12", "C17", "C07"}
+		if strings.Contains(name, "gzip") {
+			props = append(props, "C10") // compressed bodies through the client's write path: the receiver inflates once and sees the body
+		}
 		if stall {
 			props = append(props, "C06") // a stalled peer must not hang request calls
 		}
@@ -217,6 +220,7 @@ func init() {
 			}
 			cfg := defaultCfg()
 			cfg.WriteQueue = wq
+			cfg.ReadQueue = 4096 // the answers of many concurrent callers must not overflow the receive queue (that loss is permitted, and not this scenario's subject)
 			cfg.MinGzip = gz
 			cfg.ReqTimeoutU = 40
 			cl, err := t.NewClient(p, cfg)
@@ -229,6 +233,7 @@ func init() {
 			var mu sync.Mutex
 			accepted := map[int][]int{} // writer -> sequence numbers whose Do did not fail with "write queue full"
 			full, slowest := 0, time.Duration(0)
+			var unanswered []string // accepted calls that did not return their answer although the peer answers every request at once
 			for w := 0; w < writers; w++ {
 				wg.Add(1)
 				go func(w int) {
@@ -238,6 +243,13 @@ func init() {
 						body := make([]byte, n)
 						for k := range body {
 							body[k] = "abcdefghijklmnopqrstuvwxyz0123456789"[(w*31+i*7+k*k)%36]
+						}
+						if strings.Contains(name, "gzip") {
+							// poorly compressible text: the compressed body is itself far above the threshold
+							r := &rng{s: uint64(w*100003 + i*7919 + 1)}
+							for k := range body {
+								body[k] = "abcdefghijklmnopqrstuvwxyzABCDEFGHIJKLMNOPQRSTUVWXYZ0123456789+/"[r.next()%64]
+							}
 						}
 						if n >= 8 {
 							copy(body, []byte(fmt.Sprintf("%03d-%04d", w, i)))
@@ -258,6 +270,9 @@ func init() {
 							}
 						} else {
 							accepted[w] = append(accepted[w], i)
+							if err != nil && !stall {
+								unanswered = append(unanswered, fmt.Sprintf("writer %d request %d: %v", w, i, err))
+							}
 						}
 						mu.Unlock()
 					}
@@ -298,6 +313,8 @@ func init() {
 				}
 				t.Check("ws_binary_message", txt == 0, "%d frames travelled as WebSocket text messages (frames are binary messages, whatever the body codec)", txt)
 			}
+			// the peer answers every request frame it receives at once and the deadline is 40 units: an accepted call that fails lost its answer
+			t.Check("no_lost_wakeup", len(unanswered) == 0 || t.Warns("drop") > 0, "%d calls were accepted by the transport, answered by the peer at once, and still failed (first: %s)", len(unanswered), strings.Join(unanswered[:min(1, len(unanswered))], ""))
 			// every accepted write exactly once, per-writer order preserved
 			seen := map[int][]int{}
 			for _, f := range pc.Frames() {
@@ -336,64 +353,84 @@ func init() {
 	outScenario("c12/writers-16-mixed", true, 16, 12, []int{1, 40, 3000, 70000}, 64, 1024, false)
 	outScenario("c12/big-frames", true, 3, 3, []int{1 << 20, 2500000}, 16, 1<<30, false)
 	outScenario("c12/queue-1", true, 6, 20, []int{10, 500}, 1, 0, false)
+	outScenario("c12/queue-1-gzip", true, 6, 20, []int{3000, 8000}, 1, 1024, false)
 	outScenario("c12/stalled-peer", true, 48, 2, []int{1 << 19}, 2, 1<<30, true)
 
 	// C03 TCP half: the peer writes a stream of frames in a chosen segmentation, waiting for the client to consume each segment
-	register(&scenario{Name: "c03/tcp-segmentation", Props: []string{"C03"}, Quick: true, Transports: []string{"tcp"}, Run: func(t *T) {
-		p := newPeer(t, t.Transport, t.Version)
-		defer p.Shutdown()
-		var mu sync.Mutex
-		var got []string
-		p.onFrame = func(pc *peerConn, f frameIn) { stdReply(pc, f) }
-		cfg := defaultCfg()
-		cfg.ReadQueue = 4096
-		cfg.Handlers = map[uint32][]func(*protocol.Packet){50: {func(pk *protocol.Packet) {
+	for _, rbs := range []int{0, 1, 64} {
+		rbs := rbs
+		segName := "c03/tcp-segmentation"
+		if rbs > 0 {
+			segName = fmt.Sprintf("c03/tcp-segmentation-readbuf%d", rbs)
+		}
+		register(&scenario{Name: segName, Props: []string{"C03"}, Quick: true, Transports: []string{"tcp"}, Run: func(t *T) {
+			p := newPeer(t, t.Transport, t.Version)
+			defer p.Shutdown()
+			var mu sync.Mutex
+			var got []string
+			var heldPk []*protocol.Packet // the application keeps the packets: they must not change when later input arrives
+			show := func(pk *protocol.Packet) string {
+				return fmt.Sprintf("%x/%d/%x", pk.Body, pk.Metadata.Nonce, pk.Metadata.Signature)
+			}
+			p.onFrame = func(pc *peerConn, f frameIn) { stdReply(pc, f) }
+			cfg := defaultCfg()
+			cfg.ReadQueue = 4096
+			cfg.ReadBuffer = rbs
+			cfg.Handlers = map[uint32][]func(*protocol.Packet){50: {func(pk *protocol.Packet) {
+				mu.Lock()
+				got = append(got, show(pk))
+				heldPk = append(heldPk, pk)
+				mu.Unlock()
+			}}}
+			cl, err := t.NewClient(p, cfg)
+			if err != nil {
+				t.Check("setup", false, "dial: %v", err)
+				return
+			}
+			defer cl.Close(nil)
+			pc := p.FirstConn()
+			var stream []byte
+			var want []string
+			for i := 0; i < 40; i++ {
+				body := t.rg.bytes(t.rg.pick([]int{0, 1, 2, 7, 30, 200, 300, 595, 3000, 5000, 20000}))
+				f := pushFrame(50, body)
+				if i%5 == 0 {
+					f.verify, f.nonce, f.sig = 1, t.rg.next(), t.rg.bytes(16)
+				}
+				if t.Version == 2 && i%3 == 0 {
+					f.md = append(encStr([]byte("k")), encStr(t.rg.bytes(t.rg.intn(20)))...)
+				}
+				stream = append(stream, specEncode(p.version, f)...)
+				want = append(want, fmt.Sprintf("%x/%d/%x", body, f.nonce, f.sig))
+			}
+			// segmentation: random small chunks; after each chunk wait for the reader's hook event so the read chunks are known
+			pos := 0
+			reads := 0
+			for pos < len(stream) {
+				n := 1 + t.rg.intn(t.rg.pick([]int{2, 5, 17, 64, 700, 700, 3000, 9000}))
+				if pos+n > len(stream) {
+					n = len(stream) - pos
+				}
+				after := verifhook.Seq()
+				pc.SendRaw(stream[pos : pos+n])
+				pos += n
+				if _, ok := verifhook.WaitEvent("conn.read", after, t.U(20)); ok {
+					reads++
+				}
+			}
+			t.Sleep(4)
 			mu.Lock()
-			got = append(got, fmt.Sprintf("%x", pk.Body))
-			mu.Unlock()
-		}}}
-		cl, err := t.NewClient(p, cfg)
-		if err != nil {
-			t.Check("setup", false, "dial: %v", err)
-			return
-		}
-		defer cl.Close(nil)
-		pc := p.FirstConn()
-		var stream []byte
-		var want []string
-		for i := 0; i < 40; i++ {
-			body := t.rg.bytes(t.rg.pick([]int{0, 1, 2, 7, 30, 200, 5000}))
-			f := pushFrame(50, body)
-			if i%5 == 0 {
-				f.verify, f.nonce, f.sig = 1, t.rg.next(), t.rg.bytes(16)
+			defer mu.Unlock()
+			t.Check("tcp_reading_spec", strings.Join(got, ",") == strings.Join(want, ","), "packets delivered (%d) differ from the frames sent (%d) under a %d-read segmentation; first difference at %d", len(got), len(want), reads, firstDiff(got, want))
+			t.Check("tcp_reading_spec", t.Warns("drop") == 0, "packets dropped although the queue did not overflow")
+			for i, pk := range heldPk {
+				if i < len(got) && show(pk) != got[i] {
+					t.Check("tcp_reading_spec", false, "packet %d changed after it was delivered (body/nonce/signature now %.80s, at delivery %.80s): it shares memory with the connection's read buffer", i, show(pk), got[i])
+					break
+				}
 			}
-			if t.Version == 2 && i%3 == 0 {
-				f.md = append(encStr([]byte("k")), encStr(t.rg.bytes(t.rg.intn(20)))...)
-			}
-			stream = append(stream, specEncode(p.version, f)...)
-			want = append(want, fmt.Sprintf("%x", body))
-		}
-		// segmentation: random small chunks; after each chunk wait for the reader's hook event so the read chunks are known
-		pos := 0
-		reads := 0
-		for pos < len(stream) {
-			n := 1 + t.rg.intn(t.rg.pick([]int{2, 5, 17, 64, 700}))
-			if pos+n > len(stream) {
-				n = len(stream) - pos
-			}
-			after := verifhook.Seq()
-			pc.SendRaw(stream[pos : pos+n])
-			pos += n
-			if _, ok := verifhook.WaitEvent("conn.read", after, t.U(20)); ok {
-				reads++
-			}
-		}
-		t.Sleep(4)
-		mu.Lock()
-		defer mu.Unlock()
-		t.Check("tcp_reading_spec", strings.Join(got, ",") == strings.Join(want, ","), "packets delivered (%d) differ from the frames sent (%d) under a %d-read segmentation; first difference at %d", len(got), len(want), reads, firstDiff(got, want))
-		t.Check("tcp_reading_spec", t.Warns("drop") == 0, "packets dropped although the queue did not overflow")
-	}})
+		}})
+	}
 
 	// C20: the same script over both transports yields the same application-level trace; each run prints its canonical trace,
 	// the comparison across transports is done by the batch (trace_equiv) — here: the per-transport part
